@@ -49,7 +49,7 @@ impl Prop for C18 {
     fn budget(tier: Tier) -> Budget {
         match tier {
             Tier::Quick => Budget { cases: 150000, shards: 16 },
-            Tier::Thorough => Budget { cases: 1200000, shards: 16 },
+            Tier::Thorough => Budget { cases: 12000000, shards: 16 },
         }
     }
 
